@@ -61,6 +61,21 @@ def evaluate(e, env, norm):
     return pyexpr.evaluate(lower(e, leaf), env)
 
 
+def exact(e):
+    """exact value of a constant IR expression"""
+    t = e[0]
+    if t == "num":
+        return Fraction(e[1])
+    if t == "neg":
+        return -exact(e[1])
+    if t in ("add", "sub", "mul", "div"):
+        a, b = exact(e[1]), exact(e[2])
+        return a + b if t == "add" else a - b if t == "sub" else a * b if t == "mul" else a / b
+    if t == "pow":
+        return exact(e[1]) ** e[2]
+    raise Unsupported(f"not a constant expression: {t}")
+
+
 def nodes(e):
     if isinstance(e, tuple) and e and isinstance(e[0], str):
         yield e
@@ -176,6 +191,41 @@ class Extractor:
         if self.plain_params(init) != ["self"] + INIT_ORDER:
             raise Unsupported("signature of Pulse.__init__ changed")
         return out
+
+    def mono_tolerance(self, eps):
+        """slack of the sampled monotonicity comparison in Pulse._parametrization_is_valid:
+             all(parametrization(x + self.epsilon) >= parametrization(x)          for x in np.linspace(0, 1-self.epsilon, n))  -> 0
+             all(parametrization(x + self.epsilon) >= parametrization(x) - <tol>  for x in ...)   -> <tol>, a constant in self.epsilon
+        (the rest of the validators is hand-modelled and tied by correspondence; this one number is read from the source)"""
+        fn = self.method("Pulse", "_parametrization_is_valid")
+        params = self.plain_params(fn)
+        if len(params) != 2:
+            raise Unsupported("signature of _parametrization_is_valid")
+        pname = params[1]
+        for st in fn.body:
+            if isinstance(st, ast.Assign) and len(st.targets) == 1 and ast.unparse(st.targets[0]) == "is_monotone":
+                v = st.value
+                if not (isinstance(v, ast.Call) and ast.unparse(v.func) == "all" and len(v.args) == 1 and isinstance(v.args[0], ast.GeneratorExp)):
+                    raise Unsupported("is_monotone is not all(<generator>)")
+                g = v.args[0]
+                if len(g.generators) != 1 or g.generators[0].ifs or not isinstance(g.generators[0].target, ast.Name) or \
+                        ast.unparse(g.generators[0].iter) != "np.linspace(0, 1 - self.epsilon, self.check_n_points)":
+                    raise Unsupported("is_monotone: grid " + ast.unparse(g.generators[0].iter))
+                x, c = g.generators[0].target.id, g.elt
+                if not (isinstance(c, ast.Compare) and len(c.ops) == 1 and isinstance(c.ops[0], ast.GtE)
+                        and ast.unparse(c.left) == f"{pname}({x} + self.epsilon)"):
+                    raise Unsupported("is_monotone: comparison " + ast.unparse(c))
+                rhs = c.comparators[0]
+                if ast.unparse(rhs) == f"{pname}({x})":
+                    return Fraction(0)
+                if isinstance(rhs, ast.BinOp) and isinstance(rhs.op, ast.Sub) and ast.unparse(rhs.left) == f"{pname}({x})":
+                    hook = lambda ex, node: pyexpr.num(eps) if ast.unparse(node) == "self.epsilon" else None    # noqa
+                    tol = exact(pyexpr.SymExec({}, attr_hook=hook).ev(rhs.right))
+                    if tol < 0:
+                        raise Unsupported("negative monotonicity slack")
+                    return tol
+                raise Unsupported("is_monotone: right-hand side " + ast.unparse(rhs))
+        raise Unsupported("_parametrization_is_valid: no is_monotone")
 
     def super_init_call(self, cls, init, allowed_names):
         """the single `super().__init__(...)` call of `init`: returns {pulse, parametrization, perform_checks, use_lookup} as AST"""
@@ -328,7 +378,9 @@ def extract():
     path = os.path.join(core.REPO, SRC)
     tree = ast.parse(open(path, encoding="utf-8").read())
     ex = Extractor(tree)
-    ir = {"constants": ex.pulse_constants(), "gaussian": ex.gaussian(),
+    consts = ex.pulse_constants()
+    consts["mono_tol"] = ex.mono_tolerance(consts["epsilon"])
+    ir = {"constants": consts, "gaussian": ex.gaussian(),
           "constant_classes": {c: ex.constant(c) for c in ("ConstantPulse", "ConstantPulseNumerical")},
           "bundled": ex.bundled()}
     # the generated definitions may only mention x, loc, scale and the three mapped callables
@@ -354,7 +406,7 @@ def frac(q, ty="ℝ"):
 def generate():
     ir = extract()
     g, k = ir["gaussian"], ir["constants"]
-    eps = Fraction(k["epsilon"])
+    eps, tol = Fraction(k["epsilon"]), Fraction(k["mono_tol"])
     parts = [f"""import QG.Lemmas.NormalDist
 /-! GENERATED on every run by harness/gen/pulse.py from the source text of {SRC}.  Do not edit.
 Mapping table (trusted, three rows): scipy.stats.norm.pdf/cdf/sf(x, loc, scale) ↦ normPdf/normCdf/normSf x loc scale
@@ -383,6 +435,9 @@ def gaussianInputsAccepted (loc scale : ℝ) : Prop :=
 def pulseEpsilonNum : ℕ := {eps.numerator}
 def pulseEpsilonDen : ℕ := {eps.denominator}
 def pulseCheckNPoints : ℕ := {int(k['check_n_points'])}
+/-- slack of the sampled monotonicity comparison of `Pulse._parametrization_is_valid` (`F(x+ε) >= F(x) - slack`) -/
+def pulseMonoTolNum : ℕ := {tol.numerator}
+def pulseMonoTolDen : ℕ := {tol.denominator}
 """]
     for cls, c in ir["constant_classes"].items():
         n = lean_name(cls)
